@@ -63,7 +63,7 @@ def populate_script(hf, r, fill_bytes, nfiles=40, xattrs=True, special=True, spa
     return cmds
 
 
-def make_fs(src, path, opts, size, seed, fill=0.3, nfiles=40, populate=True, check=True, **kw):
+def make_fs(src, path, opts, size, seed, fill=0.3, nfiles=40, populate=True, check=True, index=False, **kw):
     """mke2fs + population; returns (ok, message)"""
     T = lambda p: os.path.join(src, p)
     env = e2v.tool_env(src, E2FSPROGS_FAKE_TIME="1700000000")
@@ -83,7 +83,8 @@ def make_fs(src, path, opts, size, seed, fill=0.3, nfiles=40, populate=True, che
         cmds = populate_script(hf, r, int(nbytes * fill), nfiles=nfiles, **kw)
         rc, out = e2v.sh([T("debugfs/debugfs"), "-w", "-f", "-", path], input=("\n".join(cmds) + "\n").encode(), env=env, timeout=600)
         # debugfs 'link' leaves the link count to e2fsck (documented); normalise once
-        e2v.sh([T("e2fsck/e2fsck"), "-fy", path], env=env, timeout=300)
+        # index=True: also build htree indexes (libext2fs itself only makes linear directories)
+        e2v.sh([T("e2fsck/e2fsck"), "-fyD" if index else "-fy", path], env=env, timeout=300)
     if check:
         rc, out = e2v.sh([T("e2fsck/e2fsck"), "-fn", path], env=env, timeout=300)
         if rc != 0:
